@@ -218,25 +218,42 @@ def check_shape(rep, fi, s, scen, world):
     stream = hi[1:]
     # STREAM = whole copies of UNIT (REP(UNIT; q) or UNIT itself), then at most one leading part SLICE(UNIT;;r), r <= len(UNIT);
     # its length q * len(UNIT) + r is compared with COUNT by value over the sample worlds this path admits
-    pieces = []         # ('copies', qtext) | ('part', rtext)
-    i = 0
     nunit = len(world.unit.split(' '))
-    while i < len(stream):
-        it = stream[i]
-        if it[0] == 'REP' and norm_pass(render_items(it[1]), world.pname) == UNIT:
-            pieces.append(('copies', it[2]))
-            i += 1
-        elif it[0] == 'SLICE' and it[2] in ('', '0') and \
-                norm_pass(it[1] if isinstance(it[1], str) else render_items(it[1]), world.pname) == UNIT:
-            pieces.append(('part', it[3]))
-            i += 1
-        elif norm_pass(render_items(stream[i:i + nunit]), world.pname) == UNIT:
-            pieces.append(('copies', '1'))
-            i += nunit
-        else:
-            return bad('hashed stream is not made of copies of %s and a leading part of it: %s' % (UNIT, render_items(stream)),
-                       'REP(%s;q) SLICE(%s;;r)' % (UNIT, UNIT))
-    if any(k == 'part' for k, _ in pieces[:-1]):
+
+    def parse_pieces(seq, allow_part=True):
+        """-> [('copies', qtext) | ('part', rtext, [copies...])] or None.  A part is the first r octets of whole copies."""
+        out, i = [], 0
+        while i < len(seq):
+            it = seq[i]
+            if it[0] == 'REP' and norm_pass(render_items(it[1]), world.pname) == UNIT:
+                out.append(('copies', it[2]))
+                i += 1
+            elif it[0] == 'REP' and parse_pieces(merge_consts(it[1]), False) is not None:
+                # (unit * a) * b
+                inner = parse_pieces(merge_consts(it[1]), False)
+                out.append(('copies', '(%s) * (%s)' % (' + '.join('(%s)' % t for _k, t in inner), it[2])))
+                i += 1
+            elif it[0] == 'SLICE' and allow_part and it[2] in ('', '0'):
+                base = it[1]
+                if isinstance(base, str):
+                    inner = [('copies', '1')] if norm_pass(base, world.pname) == UNIT else None
+                else:
+                    inner = parse_pieces(merge_consts(base), False)
+                if inner is None:
+                    return None
+                out.append(('part', it[3], inner))
+                i += 1
+            elif norm_pass(render_items(seq[i:i + nunit]), world.pname) == UNIT:
+                out.append(('copies', '1'))
+                i += nunit
+            else:
+                return None
+        return out
+    pieces = parse_pieces(stream)
+    if pieces is None:
+        return bad('hashed stream is not made of copies of %s and a leading part of them: %s' % (UNIT, render_items(stream)),
+                   'REP(%s;q) SLICE(%s;;r)' % (UNIT, UNIT))
+    if any(p[0] == 'part' for p in pieces[:-1]):
         return bad('a partial copy of the unit is followed by more data: %s' % render_items(stream))
     rep.ok(R1, c, 'stream unit = %s' % UNIT, scenario=scen)
     wrong = None
@@ -244,13 +261,17 @@ def check_shape(rep, fi, s, scen, world):
         for env in world.live:
             L = env['__L__']
             total = 0
-            for kind, t in pieces:
-                v = world.value(t, env)
-                if kind == 'part' and not (0 <= v <= L):
-                    wrong = (env, 'partial copy of %s octets of a %d octet unit' % (v, L))
-                if kind == 'copies' and v < 0:
-                    wrong = (env, '%s copies' % v)
-                total += v * L if kind == 'copies' else v
+            for p in pieces:
+                v = world.value(p[1], env)
+                if p[0] == 'part':
+                    have = sum(world.value(t, env) for _k, t in p[2]) * L
+                    if not (0 <= v <= have):
+                        wrong = (env, 'the first %s octets of %d' % (v, have))
+                    total += v
+                else:
+                    if v < 0:
+                        wrong = (env, '%s copies' % v)
+                    total += v * L
             if wrong is None and total != world.want_count(env):
                 wrong = (env, '%d octets hashed, RFC 4880 says %d' % (total, world.want_count(env)))
             if wrong:
@@ -258,9 +279,9 @@ def check_shape(rep, fi, s, scen, world):
     except (s2kshape._NoFold,) as ex:
         wrong = ({}, 'the stream length depends on %s, which is neither the octet count nor the length of salt+passphrase' % ex)
     except SyntaxError as ex:
-        raise AnalysisError('String2Key.derive_key: stream length is not an arithmetic expression: %s' % [t for _, t in pieces])
+        raise AnalysisError('String2Key.derive_key: stream length is not an arithmetic expression: %s' % [p[1] for p in pieces])
     COUNT = ('max(count, len(unit))' if world.iterated else 'len(unit)')
-    desc = ' + '.join(('%s copies' % t) if k == 'copies' else ('first %s octets' % t) for k, t in pieces)
+    desc = ' + '.join(('%s copies' % p[1]) if p[0] == 'copies' else ('first %s octets' % p[1]) for p in pieces)
     rep.check(wrong is None, R1, c, '%s: stream length %s' % (scen, desc),
               'the stream must be exactly COUNT = %s octets: full copies = COUNT // len(unit), remainder = COUNT %% len(unit)%s'
               % (COUNT, '' if wrong is None else ' (%s when count=%s, len(unit)=%s)' % (wrong[1], wrong[0].get('%s.count' % world.me), wrong[0].get('__L__'))),
